@@ -1,8 +1,11 @@
 //! Harness mounted into `astria-sequencer` as `crate::verif` (cfg(all(test, feature = "verif"))).
-#![allow(dead_code, unused_imports, clippy::all, clippy::pedantic, clippy::restriction)]
+#![allow(dead_code, unused_imports, unused_variables, unused_mut, clippy::all, clippy::pedantic, clippy::restriction)]
 
 #[path = "/verif/harness/common/mod.rs"]
 pub(crate) mod common;
+
+#[path = "/verif/harness/sequencer/chainsim/mod.rs"]
+pub(crate) mod chainsim;
 
 #[test]
 fn verif_main() {
@@ -10,6 +13,7 @@ fn verif_main() {
         return;
     };
     match job.engine.as_str() {
+        "chainsim" => common::engine_main::<chainsim::ChainSim>(&job),
         other => panic!("unknown engine {other}"),
     }
 }
